@@ -1656,6 +1656,14 @@ class Library(object):
             raise OutsideSubset('quote with encoding/errors')
         ctx = I.ctx
         t = z3str(s)
+        if isinstance(s, str):
+            import urllib.parse as _up
+            try:
+                real = _up.quote(s, safe)
+            except UnicodeEncodeError:
+                raise PyExc(self.make_exc('UnicodeEncodeError', 'surrogates'))
+            ctx.assume(spec.quote_f(t, z3.StringVal(safe)) == z3.StringVal(real))
+            return real
         ctx.used_axioms.add(
             'urllib.parse.quote: enc(utf8(s)); output over ALWAYS_SAFE+safe+%; '
             'UnicodeEncodeError iff s has a lone surrogate')
@@ -1680,6 +1688,17 @@ class Library(object):
         t = z3str(a[0])
         I.ctx.used_axioms.add('urllib.parse.%s: total on str' % name)
         I.ctx.notes.setdefault('unquote_calls', []).append((t, name))
+        if isinstance(a[0], str):
+            # a literal argument: the real function's value (and the fact
+            # that the uninterpreted symbol agrees with it)
+            import urllib.parse as _up
+            real = getattr(_up, name)(a[0])
+            try:
+                real.encode('utf-8')
+                I.ctx.assume(fn(t) == z3.StringVal(real))
+                return real
+            except UnicodeEncodeError:
+                pass
         return mk(fn(t))
 
     def lib_fnmatchcase(self, I, a, k):
@@ -1700,6 +1719,16 @@ class Library(object):
         t = z3str(text)
         ok = spec.strptime_ok_f(f, t)
         ctx.notes.setdefault('strptime_formats', []).append(fmt)
+        if isinstance(text, str) and '%z' not in fmt and '%Z' not in fmt:
+            import datetime as _dt
+            try:
+                d = _dt.datetime.strptime(text, fmt)
+            except ValueError:
+                ctx.assume(z3.Not(ok))
+                raise PyExc(self.make_exc('ValueError', 'time data does not match'))
+            us = (d - _dt.datetime(1, 1, 1)) // _dt.timedelta(microseconds=1)
+            ctx.assume(z3.And(ok, spec.strptime_val_f(f, t) == us))
+            return DateV(z3.IntVal(us))
         # strptime(prefix + strftime(d, F), prefix + F) = d truncated to
         # seconds, for 1000 <= year (axiom of the datetime model)
         ps = spec.pieces(t)
